@@ -276,4 +276,28 @@ def assemble (mode : LineMode) (fs : FS) (stdin : Str) (wargs : List Str) (wcoll
     | none => st
     | some f => absorb st false (readWcoll mode fs st.stdin f)
 
+/-! ## `-x` : `wcoll_append_excluded` — the same reader, the hosts go to the exclusion list -/
+
+/-- a `-w` or a `-x` option with its argument, in command-line order -/
+inductive Opt where
+  | w (optarg : Str)
+  | x (optarg : Str)
+  deriving Repr
+
+/-- `case 'x'`: every comma-separated piece is processed as `-piece` -/
+def xargProcess (mode : LineMode) (fs : FS) (st : St) (optarg : Str) : St :=
+  (listSplit [','] optarg).foldl (fun st s => argProcess mode fs st ('-' :: s)) st
+
+def optProcess (mode : LineMode) (fs : FS) (st : St) : Opt → St
+  | .w a => optargProcess mode fs st a
+  | .x a => xargProcess mode fs st a
+
+/-- all `-w` / `-x` options in command-line order, then WCOLL if `opt->wcoll` is still NULL -/
+def assembleOpts (mode : LineMode) (fs : FS) (stdin : Str) (opts : List Opt) (wcollEnv : Option Str) : St :=
+  let st := opts.foldl (optProcess mode fs) { stdin := stdin }
+  if st.fatal || st.created then st
+  else match wcollEnv with
+    | none => st
+    | some f => absorb st false (readWcoll mode fs st.stdin f)
+
 end PdshVerif.Opt.Wcoll
